@@ -170,6 +170,9 @@ def _env():
     for c in e.classes:
         for u in c._units:
             e.index.setdefault(u, []).append(c)
+    e.index_ci = {}
+    for u in e.index:
+        e.index_ci.setdefault(u.lower(), []).append(u)
     e.compound = {}
     e.prefix = {}
     for c in e.classes:
@@ -180,13 +183,13 @@ def _env():
     return e
 
 
-def _atom(e, tok, owner, whole):
+def _atom(e, tok, owner, whole, ci=False):
     """readings of one component: a unit of some class, optionally with an exponent suffix."""
     out = []
 
-    def direct(t, exp):
+    def direct(t, exp, other_only=False):
         for c in e.index.get(t, ()):
-            if c is owner and t == whole:
+            if c is owner and (t == whole or other_only):
                 continue
             f = c._units[t]
             if type(f) is not float or not f > 0.0:
@@ -197,11 +200,18 @@ def _atom(e, tok, owner, whole):
     m = re.match(r'^(.*?)\^?([2-9])$', tok)
     if m and m.group(1):
         direct(m.group(1), int(m.group(2)))
+    if not out and ci:
+        # (compound strings only; SI prefixes differ by case - 'mA'/'MA' - so never within the owner class) the same unit spelled with another capitalisation in the other class ('pc' in '/pc', 'Pc' in Length):
+        # used only when the exact spelling is no unit anywhere; conflicting readings make the unit 'ambiguous'
+        for t, exp in ((tok, 1),) + (((m.group(1), int(m.group(2))),) if m and m.group(1) else ()):
+            for t2 in e.index_ci.get(t.lower(), ()):
+                if t2 != t:
+                    direct(t2, exp, other_only=True)
     return out
 
 
 def _token(e, tok, owner, whole, allow_prefix):
-    out = _atom(e, tok, owner, whole)
+    out = _atom(e, tok, owner, whole, ci=allow_prefix)
     if out:
         return out
     for i in range(1, len(tok)):            # concatenation of two units, e.g. 'Ah', 'kgm', 'mAs'
